@@ -71,7 +71,8 @@ impl<U: Subscription, H: Subscription> Subscription for ZipSubscription<H, U> {
   }
 
   fn is_closed(&self) -> bool {
-    self.b.is_closed()
+    // closed only when neither part can deliver any more
+    self.a.is_closed() && self.b.is_closed()
   }
 }
 
